@@ -107,6 +107,8 @@ def parse_line(line):
             d.update(fid=int(t[1]))
         elif k == "mem_save":
             d.update(h=int(t[1]), fid=None if t[2] == "-" else int(t[2]))
+        elif k == "mem_swap":
+            d.update(h=int(t[1]), len=int(t[2]), fill=int(t[3]))
         elif k == "mem_release":
             d.update(h=int(t[1]))
     except (IndexError, ValueError):
@@ -233,6 +235,39 @@ def suite_mem(rng, tier):
             else:
                 s.mem_release(rng.randrange(0, hcount + 1))
         out.append(s)
+    # a reassembly whose storage was replaced, through the public trait on the pub `memory` field, by one of
+    # another length (shorter than max_pdu_size: the memory will refuse to take it back with BufferTooSmall):
+    # every give-back site of decap must hand it to the caller inside the error value, none may drop it
+    swap_triggers = {
+        "inter-oversize": ["h:300701" + "112233445566"],
+        "inter-fits-then-oversize": ["h:300301" + "1122", "h:300601" + "3344556677"],
+        "end-oversize": ["h:700b01" + "112233445566" + "00000000"],
+        "end-totallen": ["h:700701" + "ddee" + "00000000"],
+        "end-badcrc": ["h:701201" + "11" * 13 + "00000000"],
+        "first-same-id": ["h:a0080100080800" + "a1a2a3"],
+        "first-same-id-oversize": ["h:a00f0100120800" + "01020304050607080910"],
+        "complete": ["h:e0060800" + "aabb"],
+    }
+    for slots in (1, 2):
+        for name, pkts in swap_triggers.items():
+            for newlen in (8, 15, 16, 32, 3):
+                for extra in (0, 1):
+                    s = Session("memswap-%d-%s-%d-%d" % (slots, name, newlen, extra))
+                    s.strict = False
+                    s.dec_new(slots, 16, None)
+                    s.prov(16, 0)
+                    for _ in range(extra):
+                        s.prov(16, 0)
+                    s.decap("h:a00801" + "0012" + "0800" + "aabbcc")     # first fragment, frag id 1, 3 of 16 bytes
+                    s.mem_take(1)
+                    s.mem_swap(0, newlen, 0)
+                    s.mem_save(0, None)
+                    for pk in pkts:
+                        s.decap(pk)
+                    s.prov(16, 0)
+                    for _ in range(3):
+                        s.dec_newpdu()
+                    out.append(s)
     return out
 
 
